@@ -436,8 +436,11 @@ impl Solvers {
             Answer::Unsat => "unsat".to_string(),
             Answer::Unknown(s) => format!("unknown({})", s.chars().take(40).collect::<String>()),
         };
-        for p in [self.second.as_mut(), self.third.as_mut()].into_iter().flatten() {
-            let mut script = sc.text.clone();
+        // cross-checks (thorough tier) apply to `unsat` answers only: a `sat` answer is re-evaluated natively by the engine
+        // (exact F_q arithmetic) before it is believed, so a second solver adds nothing there; the other solvers get 30 s
+        let procs: Vec<&mut Proc> = if answer == Answer::Unsat { [self.second.as_mut(), self.third.as_mut()].into_iter().flatten().collect() } else { vec![] };
+        for p in procs {
+            let mut script = sc.text.replace(&format!("(set-option :timeout {})", timeout_ms), &format!("(set-option :timeout {})", timeout_ms.min(30000)));
             if p.name.starts_with("cvc5") {
                 script = script.replace("(reset)\n", "(reset)\n(set-logic QF_NIA)\n");
                 script = script.lines().filter(|l| !l.starts_with("(set-option :timeout")).collect::<Vec<_>>().join("\n");
